@@ -661,7 +661,9 @@ func runCase(run *evid.Run, idx int) *caseResult {
 			// objects of the new commit that the server lacks
 			var victims []histgen.PointerRef
 			for _, p := range c.model.PointersAt(b) {
-				if ok, _ := c.serverHas(p.Ptr.Oid, p.Ptr.Size); !ok {
+				// (an object an earlier incomplete push was allowed to leave behind is not part of what this push
+				// brings: its commit is on the remote already)
+				if ok, _ := c.serverHas(p.Ptr.Oid, p.Ptr.Size); !ok && !c.allowed[p.Ptr.Oid] {
 					victims = append(victims, p)
 				}
 			}
@@ -784,7 +786,7 @@ func main() {
 	run := evid.New("C03", "exploration")
 	defer sbx.RemoveBase()
 	run.Rule = "seeded histories (histgen: branches, merges incl. octopus, orphan branches, tags, renames/copies/deletes, files moving in and out of LFS tracking, nested .gitattributes, symlinks, exec bits, empty files) pushed by seeded plans over {git push <branch>, --all, --tags, new commits, amended+forced, deleted refs, git lfs push <ref>, git lfs push --all, a second clone moving the remote branch, a branch deleted on the remote by someone else with its objects garbage-collected on the server and then merged and pushed again from a clone holding the stale tracking ref, one push deleting a ref and updating others (deletion first / in the middle / last), several refs in one git lfs push (also --stdin, also as the very first push), missing local object with/without lfs.allowincompletepush, a tolerated missing object together with another object whose upload the storage server refuses every time (500/403/507)} x batch size {1,2,3,100} x {http fake server, file:// standalone remote} x transient server faults in one http case out of three {PUT 503, PUT connection reset, batch 429, mixed, uploads answered 200 but lost while the verify action truthfully answers 404, upload actions that are already expired in the first answer, and the schedule 'an object uses up its retry budget, then meets objects not yet sent in a batch call that fails' with a bulk commit and a slow batch endpoint}; family b re-points the remote to an empty server. Oracle: brute-force enumeration (git rev-list/ls-tree/cat-file with filters disabled + ptrspec) of every pointer in every commit reachable from the remote's refs vs the server store. Class = (transport, family, batch size, set of step kinds)."
-	run.Assumptions = []string{"family a: the fake server never loses objects and remote-tracking refs only change through push/fetch against the same server, so 'reachable from remote refs => on server' is an invariant every correct implementation maintains", "pointers are the canonical non-empty pointers found in any tree (the generator creates no look-alikes)", "git 2.39.5"}
+	run.Assumptions = []string{"an object that an explicitly allowed incomplete push (lfs.allowincompletepush) left behind stays exempt afterwards: later pushes of descendant commits do not bring its pointer blob, so neither clause is applied to it again", "family a: the fake server never loses objects and remote-tracking refs only change through push/fetch against the same server, so 'reachable from remote refs => on server' is an invariant every correct implementation maintains", "pointers are the canonical non-empty pointers found in any tree (the generator creates no look-alikes)", "git 2.39.5"}
 	n := run.N(40, 400)
 	workers := runtime.NumCPU()
 	if workers > n {
